@@ -4,13 +4,19 @@ Real side: an in-process hub (in-memory persistence) with real virtual ports, dr
 `core.api.funcs.ports.post_ports / delete_port / patch_port` (expression and enabled), `BasePort.set_attr('expression')`,
 `core.expressions.check_loops` and a restart (`save` + `remove(persisted_data=False)` + `core.vports.init()`).
 Model side: QtVerif.Model.Deps via Driver/C04.lean (same op sequence, expressions sent as parsed trees).
+Concurrency: `batch` ops start 2-3 assignments together (tasks created in the given order, gathered) on hubs where
+attr_set_expression really suspends (a running value sequence started with PATCH /ports/<id>/sequence, pending
+evaluations, disabled ports); the result must be acyclic and equal to that of SOME serial order of the batch.
 Oracle (independent of the model, evaluated on the real observations after every op):
   O1 the graph "p reads q" (q in get_expression().get_deps() of p, q != p, both live) has no cycle;
   O2 a refused assignment leaves every expression as it was;
   O3 an accepted assignment installs exactly the candidate on that port and changes no other port;
   O4 an assignment / check_loops call is refused as circular  <=>  installing the candidate would close a cycle
-     (Python reachability over the live graph before the op) — self references and dangling references never count.
+     (Python reachability over the live graph before the op) — self references and dangling references never count;
+  O5 the outcomes and expressions after a concurrent batch are those of some serial order (Python simulation of every
+     permutation over the graph before the batch).
 """
+import itertools
 import asyncio
 import logging
 
@@ -183,7 +189,9 @@ class C04(Prop):
             '(prefix-related ids included): add / delete / re-add ports, assign expressions (random trees of depth 0-3 over '
             '15 real functions, leaves = $id of live / dangling / cycle-closing ports, $, @id, literals; 4 whitespace '
             'layouts; via PATCH /ports/<id> or set_attr), malformed texts, clear, disable/enable, direct check_loops '
-            'calls, restarts; chain / diamond scenarios steer towards long cycles. Non-trivial = at least one circular '
+            'calls, restarts, PUT /ports restores, and concurrent batches: 2-3 assignments started together (tasks created in a '
+            'given order) after some of their ports got a running value sequence (PATCH /ports/<id>/sequence, long delays), '
+            'were disabled, or have evaluations pending; chain / diamond scenarios steer towards long cycles. Non-trivial = at least one circular '
             'refusal AND one accepted assignment reading a live port; distinct = distinct (outcomes, final graph)')
     CORRESPONDENCE = ('Deps.step / Deps.checkLoops <-> api.funcs.ports.{post_ports,delete_port,patch_port}, '
                       'BasePort.set_attr("expression"), core.expressions.check_loops, restart via core.vports.init')
@@ -192,8 +200,8 @@ class C04(Prop):
                '(text -> tree is property C03)']
     ASSUMPTIONS = ['only local virtual ports (always writable); slave ports and port id mappings are out of scope',
                    'chains stay far below the Python recursion limit (check_loops_rec recurses once per port on a path)',
-                   'check + install of one assignment is atomic (no await that yields between check_loops and the '
-                   'store to _expression)']
+                   'atomicity of check_loops + store to _expression w.r.t. the event loop is not proved; it is watched by the '
+                   'concurrent batch cases (result acyclic and equal to some serial order)']
 
     # ------------------------------------------------------------------------------------------------ life-cycle
     def setup(self):
@@ -268,6 +276,12 @@ class C04(Prop):
                                  ['restore', [['p0', None, ['t', v('p1'), 0]], ['p1', 0, ['t', c('MUL', v('p2'), li('2')), 2]],
                                               ['p2', 1, '']]], st('p2', v('p0')),
                                  ['restore', [['p1', None, ['bad', 0, 'p1']], ['p2', None, None]]]]},
+            # two halves of a 2-cycle submitted together, the first port is busy cancelling its value sequence
+            {'ops': add('p0', 'p1') + [['seq', 'p0'], ['batch', [['set', 'p0', c('ADD', v('p1'), li('1')), 0],
+                                                                  ['set', 'p1', c('MUL', v('p0'), li('2')), 0]]]]},
+            {'ops': add('p0', 'p1', 'p2') + [['seq', 'p0'], ['seq', 'p1'], ['en', 'p2', 0],
+                                               ['batch', [['seta', 'p0', v('p1'), 1], ['set', 'p1', v('p2'), 0],
+                                                          ['set', 'p2', c('IF', li('1'), s, v('p0')), 2]]]]},
             # long chain closed at the far end
             {'ops': add(*POOL[:10]) + [st(POOL[i], c('ADD', li('1'), v(POOL[i + 1]))) for i in range(9)] +
                     [st(POOL[9], c('MUL', v(POOL[9]), c('SUB', li('1'), v(POOL[0])))), ['seta', POOL[9], v(POOL[8]), 1]]},
@@ -332,6 +346,46 @@ class C04(Prop):
                 live.append(i)
                 graph.pop(i, None)
 
+        def do_batch():
+            """2-3 assignments submitted together; beforehand some of the ports get a running sequence (which makes
+            attr_set_expression suspend while it is cancelled), some a pending evaluation, some are disabled."""
+            k = min(len(live), rng.choice([2, 2, 2, 3]))
+            ports = rng.sample(live, k)
+            if rng.random() < 0.1:
+                ports[-1] = ports[0]
+            ring = rng.random() < 0.65
+            for j, i in enumerate(ports):
+                r0 = rng.random()
+                if r0 < (0.7 if j == 0 else 0.3):      # sequence: the port must be enabled and without expression
+                    if i in graph or rng.random() < 0.3:
+                        ops.append(['clr', i])
+                        graph.pop(i, None)
+                        trees.pop(i, None)
+                    ops.append(['en', i, 1])
+                    ops.append(['seq', i])
+                elif r0 < 0.4:
+                    ops.append(['en', i, 0])
+            subs = []
+            for j, i in enumerate(ports):
+                if ring:
+                    t = ['v', ports[(j + 1) % k]]
+                    if rng.random() < 0.6:
+                        t = rng.choice([['c', 'ADD', [t, ['l', '1']]], ['c', 'MUL', [['s'], t]],
+                                        ['c', 'IF', [['l', '1'], ['c', 'NOT', [t]], ['v', 'nosuch']]]])
+                elif rng.random() < 0.08:
+                    subs.append(['clr', i, None, 0])
+                    continue
+                else:
+                    t = candidate(i)
+                subs.append([rng.choice(['set', 'set', 'seta']), i, t, rng.randrange(4)])
+            ops.append(['batch', subs])
+            for sub in subs:
+                if sub[0] == 'clr':
+                    graph.pop(sub[1], None)
+                    trees.pop(sub[1], None)
+                else:
+                    shadow_set(sub[1], sub[2])
+
         for i in ids[:rng.randint(max(2, len(ids) - 3), len(ids))]:
             do_add(i)
         scenario = rng.random()
@@ -376,6 +430,8 @@ class C04(Prop):
                 ops.append(['setbad', rng.choice(live + ['nosuch']), rng.randrange(len(BAD)), rng.choice(live)])
             elif r < 0.30:
                 ops.append(['reload'])
+            elif r < 0.40 and len(live) >= 2:
+                do_batch()
             elif r < 0.325:
                 # PUT /ports: either a faithful backup of the (shadow) hub, or a random description
                 entries = []
@@ -447,6 +503,14 @@ class C04(Prop):
                     yield {'ops': ops[:i] + [[op[0], op[1], op[2], 0]] + ops[i + 1:]}
                 if op[0] == 'seta':
                     yield {'ops': ops[:i] + [['set'] + op[1:]] + ops[i + 1:]}
+            if op[0] == 'batch':
+                for j in range(len(op[1])):
+                    if len(op[1]) > 1:
+                        yield {'ops': ops[:i] + [['batch', op[1][:j] + op[1][j + 1:]]] + ops[i + 1:]}
+                    sub = op[1][j]
+                    if sub[0] != 'clr':
+                        for st_ in subtrees(sub[2]):
+                            yield {'ops': ops[:i] + [['batch', op[1][:j] + [[sub[0], sub[1], st_, 0]] + op[1][j + 1:]]] + ops[i + 1:]}
             if op[0] == 'restore':
                 for j in range(len(op[1])):
                     yield {'ops': ops[:i] + [['restore', op[1][:j] + op[1][j + 1:]]] + ops[i + 1:]}
@@ -469,6 +533,7 @@ class C04(Prop):
         try:
             await self._quiesce()
             for port in list(self.core_ports.get_all()):
+                await port.disable()        # cancels a running value sequence
                 await port.remove()
                 await self.core_vports.remove(port.get_id())
             await self.core_vports.reset()
@@ -551,6 +616,21 @@ class C04(Prop):
             return BAD[op[2]].replace('{r}', '$' + op[3]).replace('{i}', op[3])
         return None
 
+    async def _one_assignment(self, sub):
+        """One request of a concurrent batch: ['set'|'seta'|'clr', id, tree, ws]."""
+        try:
+            text = '' if sub[0] == 'clr' else self.op_text(sub)
+            if sub[0] == 'seta':
+                port = self.core_ports.get(sub[1])
+                if port is None:
+                    return 'no-such-port'
+                await port.set_attr('expression', text)
+            else:
+                await self.api_ports.patch_port(self.handler, sub[1], {'expression': text})
+            return 'ok'
+        except Exception as e:  # noqa
+            return self._err(e)
+
     async def _real(self, case):
         await self._reset()
         h, api = self.handler, self.api_ports
@@ -599,6 +679,17 @@ class C04(Prop):
                             out = 'loop'
                 elif kind == 'restore':
                     await api.put_ports(h, [self.entry_json(en) for en in op[1]])
+                elif kind == 'seq':
+                    try:
+                        await api.patch_port_sequence(h, op[1], {'values': [1, 2, 3], 'delays': [60000, 60000, 60000],
+                                                                 'repeat': 1})
+                        out = 'seq-started'
+                    except self.core_api.APIError as e:
+                        out = f'seq-refused:{e.code}'
+                elif kind == 'batch':
+                    cand = [self._candidate_info(sub[1], self.op_text(sub)) if sub[0] != 'clr' else None for sub in op[1]]
+                    tasks = [asyncio.ensure_future(self._one_assignment(sub)) for sub in op[1]]   # started in this order
+                    out = list(await asyncio.gather(*tasks))
                 elif kind == 'reload':
                     for port in self.core_ports.get_all():
                         await port.save()
@@ -641,9 +732,16 @@ class C04(Prop):
                 out = driver.ask(f'check {op[1]} ' + ' '.join(tokens(op[2])))
             elif kind == 'restore':
                 out = driver.ask('restore' + ''.join(' ; ' + self.entry_tokens(en) for en in op[1]))
+            elif kind == 'seq':
+                out = 'skipped'         # no effect on the dependency graph; outcome is the real one
+            elif kind == 'batch':
+                res.append(self._model_batch(op[1], ob, driver))
+                continue
             else:
                 out = driver.ask('reload')
-            if out != 'skipped':
+            if kind == 'seq':
+                out = ob['out']
+            elif out != 'skipped':
                 if not out.startswith('ok '):
                     out = 'model:' + out
                 else:
@@ -657,6 +755,47 @@ class C04(Prop):
                     state[pid] = (int(en), ex)
             res.append((out, state))
         return res
+
+    @staticmethod
+    def _parse_dump(dump):
+        assert dump.startswith('ok'), dump
+        state = {}
+        for part in dump[3:].split('\t'):
+            if part:
+                pid, en, ex = part.split('|', 2)
+                state[pid] = (int(en), ex)
+        return state
+
+    def _model_sub(self, sub, driver):
+        if sub[0] == 'clr':
+            out = driver.ask(f'clr {sub[1]}')
+        else:
+            out = driver.ask(f'set {sub[1]} ' + ' '.join(tokens(sub[2])))
+        return out[3:] if out.startswith('ok ') else 'model:' + out
+
+    def _model_batch(self, subs, ob, driver):
+        """Run every serial order of the batch on the model; keep the one that reproduces the real outcome (the
+        submission order when none does). Returns (outcomes, state, matching order or None)."""
+        real_state = {p: (d['enabled'], d['expr']) for p, d in ob['after'].items()}
+        assert driver.ask('push') == 'ok'
+        chosen = None
+        results = []
+        for perm in itertools.permutations(range(len(subs))):
+            outs = [None] * len(subs)
+            for i in perm:
+                outs[i] = self._model_sub(subs[i], driver)
+            state = self._parse_dump(driver.ask('dump'))
+            results.append((perm, outs, state))
+            assert driver.ask('pop') == 'ok' and driver.ask('push') == 'ok'
+            if chosen is None and outs == ob['out'] and state == real_state:
+                chosen = perm
+        assert driver.ask('pop') == 'ok'
+        perm = chosen if chosen is not None else tuple(range(len(subs)))
+        outs = [None] * len(subs)
+        for i in perm:
+            outs[i] = self._model_sub(subs[i], driver)
+        state = self._parse_dump(driver.ask('dump'))
+        return outs, state, chosen
 
     # ------------------------------------------------------------------------------------------------ oracle + diff
     def run_case(self, case, driver):
@@ -675,7 +814,8 @@ class C04(Prop):
 
         for idx, (op, ob) in enumerate(zip(ops, obs)):
             kind, out, before, after, cand = op[0], ob['out'], ob['before'], ob['after'], ob['cand']
-            tags.add(f'{kind}:{out}' if not out.startswith('other') else 'unexpected-error')
+            if kind != 'batch':
+                tags.add(f'{kind}:{out}' if not out.startswith('other') else 'unexpected-error')
             live_b = set(before)
             graph_b = {p: d['deps'] for p, d in before.items()}
             # O1: no cycle among distinct live ports
@@ -734,6 +874,26 @@ class C04(Prop):
                                           + (' (self reference only)' if cand and set(cand[1]) <= {pid} else ''))
                         elif would:
                             prop_fail(idx, f'cycle-closing assignment refused with {out!r}, not with circular-dependency')
+            elif kind == 'batch':
+                subs = op[1]
+                serial = self._serial_results(subs, cand, before)
+                real_res = (tuple(out), tuple(sorted(exprs_a.items())))
+                seq_ports = [s_[1] for s_ in subs if any(o[0] == 'seq' and o[1] == s_[1] for o in ops[max(0, idx - 8):idx])]
+                tags.add(f'batch-{len(subs)}' + ('-with-sequence' if seq_ports else ''))
+                tags.update(f'batch:{o}' if not o.startswith('other') else 'unexpected-error' for o in out)
+                if real_res not in serial:
+                    prop_fail(idx, f'concurrent batch: outcomes {out} with expressions {exprs_a} equal those of no '
+                                   f'serial order of the batch (graph before: {exprs_b})')
+                else:
+                    order = serial[real_res]
+                    tags.add('batch:as-submitted' if list(order) == sorted(order) else 'batch:reordered')
+                    if len({r[0] for r in serial}) > 1:
+                        tags.add('batch:order-matters')
+                n_circ += sum(1 for o in out if o == 'circular')
+                n_acc_live += sum(1 for o, c0, s_ in zip(out, cand, subs)
+                                  if o == 'ok' and c0 and any(q != s_[1] and q in live_b for q in c0[1]))
+            elif kind == 'seq':
+                pass
             elif kind == 'restore':
                 tags.add(f'restore-{len(op[1])}-entries')
             elif kind in ('en', 'add', 'del', 'reload', 'clr'):
@@ -742,7 +902,7 @@ class C04(Prop):
                     prop_fail(idx, f'{kind} changed installed expressions: {exprs_b} -> {exprs_a}')
             # correspondence: outcome, then graph, enabled flags and the expression attribute
             if fail is None:
-                mout, mstate = model[idx]
+                mout, mstate = model[idx][0], model[idx][1]
                 real_state = {p: (d['enabled'], d['expr']) for p, d in after.items()}
                 attr_state = {p: (d['enabled'], d['attr']) for p, d in after.items()}
                 if mout != out:
@@ -762,6 +922,32 @@ class C04(Prop):
             key = repr(([o['out'] for o in obs], final))
         observed = {'outcomes': [o['out'] for o in obs], 'final': final}
         return fail, {'tags': sorted(tags), 'key': key, 'observed': observed}
+
+    @staticmethod
+    def _serial_results(subs, cand, before):
+        """{(outcomes by submission index, sorted expressions): order} for every serial order of the batch, computed
+        from the real graph before the batch (real parser for the candidates, Python reachability)."""
+        res = {}
+        for perm in itertools.permutations(range(len(subs))):
+            exprs = {p: d['expr'] for p, d in before.items()}
+            graph = {p: list(d['deps']) for p, d in before.items()}
+            live = set(before)
+            outs = [None] * len(subs)
+            for i in perm:
+                sub, c0 = subs[i], cand[i]
+                pid = sub[1]
+                if pid not in live:
+                    outs[i] = 'no-such-port'
+                elif sub[0] == 'clr':
+                    exprs[pid], graph[pid], outs[i] = '-', [], 'ok'
+                elif c0 is None:
+                    outs[i] = 'parse-error'
+                elif any(q != pid and q in live and reaches(graph, live, q, pid) for q in c0[1]):
+                    outs[i] = 'circular'
+                else:
+                    exprs[pid], graph[pid], outs[i] = c0[0], list(c0[1]), 'ok'
+            res.setdefault((tuple(outs), tuple(sorted(exprs.items()))), perm)
+        return res
 
     def known_match(self, finding, case, failure):
         return False
